@@ -156,6 +156,8 @@ def replay(chk, c):
     c['native'] = {'exit': res['exit'], 'report': (res['report'] or '')[:800], 'rcs': [s_['rc'] for s_ in res['steps']]}
     if res['report']:
         return True, 'sanitizer/ledger: ' + [l for l in res['report'].split('\n') if l.strip()][0][:200]
+    if res.get('invariant'):
+        return True, 'native object representation: ' + res['invariant']
     st = res['steps']
     if len(st) > c['fail_step'] and st[c['fail_step']]['rc'] != 2:
         return True, 'failure did not propagate as bad_alloc (rc %d)' % st[c['fail_step']]['rc']
@@ -212,6 +214,8 @@ def main(tier):
                     if res['report'] is None and (len(st_) <= len(pre) or st_[len(pre)]['rc'] != 2):
                         break          # fewer than j allocations (or the operation is illegal in this pre-state): no fault was injected
                     nb += 1
+                    if not res['report'] and res.get('invariant'):
+                        res['report'] = 'object representation: ' + res['invariant']
                     if res['report']:
                         first = [l for l in res['report'].split('\n') if l.strip()][0][:160]
                         sig = ins_n.describe().split('  [')[0].split(' t=')[0] + '|' + first.split(' on address')[0][:60]
